@@ -22,6 +22,11 @@ def dispatch (j : Json) : Json :=
   | "expect" => Driver.handleExpect j
   | "tools" => Driver.handleTools j
   | "compile" => Driver.handleCompile j
+  | "probe" =>
+    -- observations made entirely on the implementation side (runtime behaviour the model cannot
+    -- exhibit); the probes travel in the input line and are judged by the check driver
+    Json.mkObj [("corr", true), ("prop", Json.mkObj []), ("feat", (Wire.getObj? j "feat").getD (Json.arr #[])),
+                ("nontrivial", true), ("key", ((Wire.getObj? j "case").getD .null).compress)]
   | op => Json.mkObj [("error", Json.str ("unknown op " ++ op))]
 
 partial def loop (hin : IO.FS.Stream) (hout : IO.FS.Stream) : IO Unit := do
